@@ -207,6 +207,16 @@ def expand (base : HRule) (policyId ruleId : String) (lA : List (List Addr)) (lP
   combos.zipIdx.map fun (c, i) =>
     { base with lAddrs := c.1, lPorts := c.2.1, rAddrs := c.2.2.1, rPorts := c.2.2.2, id := mkId policyId ruleId i }
 
+/-- `s.NewRule(isInbound, PolicyRuleBasePriority)` with the rule's action. -/
+def baseRule (act : Action) (inbound : Bool) : HRule :=
+  { action := act, inbound := inbound, proto := 256, prio := policyRuleBasePriority }
+
+/-- The "Protocol" step of protoRuleToHnsRules. -/
+def withProto (base : HRule) : Option ProtoSpec → HRule
+  | none => base
+  | some (.name nm) => { base with proto := protocolNameToNumber nm }
+  | some (.num k) => { base with proto := k % 65536 }
+
 /-- protoRuleToHnsRules(policyId, rule, isInbound, ipPortsPerRule) with AclRuleId supported. -/
 def protoRuleToHnsRules (s : IPSets) (policyId : String) (r : Rule) (inbound : Bool) (n : Nat) :
     Except Err (List HRule) :=
@@ -222,7 +232,7 @@ def protoRuleToHnsRules (s : IPSets) (policyId : String) (r : Rule) (inbound : B
     match actionOf r.action with
     | none => .error .notSupported
     | some act =>
-      let base : HRule := { action := act, inbound := inbound, proto := 256, prio := policyRuleBasePriority }
+      let base : HRule := baseRule act inbound
       if !r.dstIpPortSets.isEmpty then
         match getIPPortMembers s r.dstIpPortSets with
         | none => .error .missingIPSet
@@ -230,10 +240,7 @@ def protoRuleToHnsRules (s : IPSets) (policyId : String) (r : Rule) (inbound : B
           .ok ((groupIPPorts ms).zipIdx.map fun (g, i) =>
             { base with rAddrs := g.2.2, rPorts := [⟨g.2.1, g.2.1⟩], proto := g.1, id := mkId policyId r.ruleId i })
       else
-        let base := match r.proto with
-          | none => base
-          | some (.name nm) => { base with proto := protocolNameToNumber nm }
-          | some (.num k) => { base with proto := k % 65536 }
+        let base := withProto base r.proto
         match sideAddrs s srcNet r.srcSets with
         | .error e => .error e
         | .ok srcA =>
@@ -279,10 +286,14 @@ def bump : Nat → Option Action → List HRule → List HRule × Nat
     let (rs, c) := bump cur' (some m.action) ms
     ({ m with prio := cur' } :: rs, c)
 
+/-- The default block-or-pass rule appended at the end of the tier (NewRule + Action override). -/
+def eotRule (inbound eotDrop : Bool) (prio : Nat) : HRule :=
+  { action := if eotDrop then .block else .pass, inbound := inbound, proto := 256, prio := prio }
+
 /-- GetPolicySetRules(setIds, isInbound, endOfTierDrop) given the looked-up sets' members. -/
 def getPolicySetRules (sets : List (Option (List HRule))) (inbound eotDrop : Bool) : List HRule :=
   let (rs, cur) := bump policyRuleBasePriority none (gatherMembers inbound sets)
-  rs ++ [{ action := if eotDrop then .block else .pass, inbound := inbound, proto := 256, prio := cur + 1 }]
+  rs ++ [eotRule inbound eotDrop (cur + 1)]
 
 /-! ## Semantics -/
 
@@ -303,11 +314,13 @@ def HRule.matches (h : HRule) (p : Pkt) : Bool :=
   (h.proto == 256 || h.proto == p.proto) && addrsOK h.lAddrs lip && addrsOK h.rAddrs rip &&
     portsOK h.lPorts lport && portsOK h.rPorts rport
 
-def minPrio (rules : List HRule) (p : Pkt) : Option Nat := ((rules.filter (·.matches p)).map (·.prio)).min?
+/-- A matching rule is decisive if no matching rule has a strictly lower priority number. -/
+def decisive (rules : List HRule) (p : Pkt) (h : HRule) : Bool :=
+  h.matches p && rules.all (fun g => !g.matches p || h.prio ≤ g.prio)
 
 /-- Actions of all matching rules that have the lowest priority number. -/
 def hnsActions (rules : List HRule) (p : Pkt) : List Action :=
-  (rules.filter (fun h => h.matches p && some h.prio == minPrio rules p)).map (·.action)
+  (rules.filter (decisive rules p)).map (·.action)
 
 def protoOK (ps : Option ProtoSpec) (p : Pkt) : Bool :=
   match ps with
